@@ -4,6 +4,7 @@ package main
 // FIFO shape rule of chunkQueue.
 
 import (
+	"fmt"
 	"go/token"
 	"go/types"
 	"strings"
@@ -403,6 +404,25 @@ func runC16(c *Ctx) {
 	})
 	if !okStore {
 		o.Fail(nw.Pos(), "the constructor does not store the configured chance")
+	}
+	// (re)seeding the shared generator: only with a value that does not repeat between constructions (nanosecond
+	// clock); a coarser seed resets the generator to the same state for every filter built within that unit, which
+	// correlates the draws of filters that are already running
+	for _, g := range p.Funcs {
+		if pkgOf(g) != "vnet" {
+			continue
+		}
+		instrsOf(g, func(in ssa.Instruction) {
+			cl, ok := in.(*ssa.Call)
+			if !ok || callName(cl) != "math/rand.Seed" {
+				return
+			}
+			o.Site(in.Pos(), "rand.Seed in %s", fname(g))
+			src, ok := origin(cl.Call.Args[0]).(*ssa.Call)
+			if !ok || callName(src) != "(time.Time).UnixNano" {
+				o.Fail(in.Pos(), "%s seeds the shared generator with something coarser than the nanosecond clock: filters built close together restart the same sequence and the draws are no longer independent", fname(g))
+			}
+		})
 	}
 
 	o = c.Obl("R2", fname(f), "whatever is forwarded is the very chunk received, at most once, to the wrapped NIC, and nothing else is written", 1)
@@ -819,6 +839,105 @@ func runC15(c *Ctx) {
 	if nQ == 0 {
 		o.Fail(nw.Pos(), "the constructor does not create the filter's queue")
 	}
+	queueByteAccounting(c, "R8")
+}
+
+// queueByteAccounting: the byte occupancy of the chunk queue goes up by the payload length of the chunk pushed and
+// down by the payload length of the chunk popped - the same measure on both sides - and the "full" test of push
+// is on occupancy + that length.
+func queueByteAccounting(c *Ctx, rule string) {
+	p := c.P
+	o := c.Obl(rule, "vnet.chunkQueue.bytes", "the queue's byte occupancy changes only by +len(payload) of the chunk pushed and -len(payload) of the chunk popped (one measure on both sides: nothing leaks, nothing is double counted), and push refuses on occupancy+len(payload) against the byte limit", 2)
+	push, pop := p.Func("vnet", "chunkQueue", "push"), p.Func("vnet", "chunkQueue", "pop")
+	named := p.Named("vnet", "chunkQueue")
+	if push == nil || pop == nil || named == nil {
+		o.Undecide("chunkQueue push/pop not found")
+		return
+	}
+	// the occupancy field: the int field both push and pop store to
+	st, _ := named.Underlying().(*types.Struct)
+	field := ""
+	if st != nil {
+		for i := 0; i < st.NumFields(); i++ {
+			f := st.Field(i).Name()
+			inPush, inPop := false, false
+			instrsOfU(push, func(in ssa.Instruction) {
+				if isFieldStore(in, "vnet.chunkQueue", f) {
+					inPush = true
+				}
+			})
+			instrsOfU(pop, func(in ssa.Instruction) {
+				if isFieldStore(in, "vnet.chunkQueue", f) {
+					inPop = true
+				}
+			})
+			if b, ok := st.Field(i).Type().Underlying().(*types.Basic); ok && b.Info()&types.IsInteger != 0 && inPush && inPop {
+				field = f
+			}
+		}
+	}
+	if field == "" {
+		o.Undecide("no integer occupancy field written by both push and pop")
+		return
+	}
+	payloadLen := func(v ssa.Value, chunk func(ssa.Value) bool) bool {
+		return isLenOf(origin(v), func(x ssa.Value) bool {
+			cl, ok := origin(x).(*ssa.Call)
+			return ok && cl.Call.IsInvoke() && cl.Call.Method.Name() == "UserData" && chunk(cl.Call.Value)
+		})
+	}
+	check := func(f *ssa.Function, op token.Token, chunk func(ssa.Value) bool, what string) {
+		n := 0
+		for _, in := range findU(f, func(in ssa.Instruction) bool { return isFieldStore(in, "vnet.chunkQueue", field) }) {
+			n++
+			stv := in.(*ssa.Store)
+			o.Site(in.Pos(), "%s: %s %s= ...", fname(f), field, op)
+			b, ok := origin(stv.Val).(*ssa.BinOp)
+			if !ok || b.Op != op || !isFieldLoad(b.X, "vnet.chunkQueue", field) || !payloadLen(b.Y, chunk) {
+				o.Fail(in.Pos(), "%s does not change %s by exactly len(UserData()) of %s (a different measure on one side leaks or double counts bytes: the queue ends up full while empty, or never full)", fname(f), field, what)
+			}
+		}
+		if n != 1 {
+			o.Fail(f.Pos(), "expected one update of %s in %s, found %d", field, fname(f), n)
+		}
+	}
+	isPushed := func(v ssa.Value) bool { return len(push.Params) > 1 && sameOrigin(v, ssa.Value(push.Params[1])) }
+	isHead := func(v ssa.Value) bool {
+		// the element popped: chunks[0] (or the front of a list)
+		for _, rv := range returnedValuesU(pop, 0) {
+			if !isNilConst(rv) && sameOrigin(v, rv) {
+				return true
+			}
+		}
+		return false
+	}
+	check(push, token.ADD, isPushed, "the chunk pushed")
+	check(pop, token.SUB, isHead, "the chunk popped")
+	// the refusal test
+	okFull := false
+	instrsOfU(push, func(in ssa.Instruction) {
+		iff, ok := in.(*ssa.If)
+		if !ok {
+			return
+		}
+		cm, ok := normCmp(iff.Cond, true)
+		if !ok {
+			return
+		}
+		for _, side := range []ssa.Value{cm.X, cm.Y} {
+			if b, ok := origin(side).(*ssa.BinOp); ok && b.Op == token.ADD && isFieldLoad(b.X, "vnet.chunkQueue", field) {
+				o.Site(in.Pos(), "full test on %s + ...", field)
+				if payloadLen(b.Y, isPushed) {
+					okFull = true
+				} else {
+					o.Fail(in.Pos(), "the byte-limit test of push adds something else than len(UserData()) of the chunk pushed")
+				}
+			}
+		}
+	})
+	if !okFull {
+		o.Fail(push.Pos(), "push has no byte-limit test on occupancy + len(payload)")
+	}
 }
 
 // ---------------------------------------------------------------------------------
@@ -1075,77 +1194,7 @@ func runC14(c *Ctx) {
 		}
 	}
 
-	// R8 router minimum delay
-	o = c.Obl("R8", fname(pc), "router: a chunk is popped only on the edge where its timestamp is not after cutOff = now - minDelay; the timestamp is taken when the router enqueues the chunk", 3)
-	var cut *ssa.Call
-	instrsOfU(pc, func(in ssa.Instruction) {
-		call, ok := in.(*ssa.Call)
-		if !ok || callName(call) != "(time.Time).Add" {
-			return
-		}
-		now, ok := origin(call.Call.Args[0]).(*ssa.Call)
-		if !ok || callName(now) != "time.Now" {
-			return
-		}
-		lf := linOf(call.Call.Args[1], nil)
-		want := linSym(pc.Params[0].Name() + ".minDelay").scale(-1)
-		if lf.eq(want) {
-			cut = call
-			o.Site(in.Pos(), "cutOff = now - minDelay")
-		} else if strings.Contains(lf.String(), "minDelay") {
-			o.Site(in.Pos(), "cutOff = now + (%s)", lf)
-			o.Fail(in.Pos(), "the cut-off is now + (%s), not now - minDelay: chunks younger than the minimum delay are forwarded", lf)
-		}
-	})
-	if cut == nil && !o.Failed {
-		o.Fail(pc.Pos(), "cut-off time (now - minDelay) not found in processChunks")
-	}
-	notDue := func(ft fact) bool {
-		if cut == nil {
-			return false
-		}
-		isTS := func(v ssa.Value) bool {
-			ts, ok := v.(*ssa.Call)
-			return ok && ts.Call.IsInvoke() && ts.Call.Method.Name() == "getTimestamp"
-		}
-		return timeOrderFact(ft, isTS, func(v ssa.Value) bool { return sameOrigin(v, ssa.Value(cut)) }) == -1
-	}
-	for _, in := range findU(pc, func(in ssa.Instruction) bool { return isQueueCall(in, "pop") }) {
-		o.Site(in.Pos(), "pop")
-		if !hasFact(in, notDue) {
-			o.Fail(in.Pos(), "the router pops a chunk on a path where its timestamp was not compared with the cut-off")
-		}
-	}
-	// timestamp at enqueue
-	var stamp, qpush ssa.Instruction
-	instrsOfU(rpush, func(in ssa.Instruction) {
-		if isInvoke(in, "setTimestamp") {
-			stamp = in
-		}
-		if isQueueCall(in, "push") {
-			qpush = in
-		}
-	})
-	if stamp == nil || qpush == nil || !domU(stamp, qpush) {
-		o.Fail(rpush.Pos(), "the chunk is not stamped before the router enqueues it")
-	} else {
-		o.Site(stamp.Pos(), "setTimestamp before queue.push")
-		if stamp.(*ssa.Call).Call.Value != qpush.(*ssa.Call).Call.Args[1] {
-			o.Fail(stamp.Pos(), "the stamped chunk is not the one that is enqueued")
-		}
-	}
-	for _, tn := range []string{"chunkIP"} {
-		if f := p.Func("vnet", tn, "setTimestamp"); f != nil {
-			instrsOf(f, func(in ssa.Instruction) {
-				if s, ok := in.(*ssa.Store); ok && isFieldStore(s, "vnet."+tn, "timestamp") {
-					call, ok := origin(s.Val).(*ssa.Call)
-					if !ok || callName(call) != "time.Now" {
-						o.Fail(in.Pos(), "setTimestamp does not record time.Now()")
-					}
-				}
-			})
-		}
-	}
+	routerDelayRules(c, pc, rpush)
 	fifoShape(c, "R7")
 }
 
@@ -1342,4 +1391,169 @@ func assertedFrom(v ssa.Value) (ssa.Value, bool) {
 		}
 	}
 	return nil, false
+}
+
+// routerDelayRules: the router's minimum delay and the wait it reports to its forwarding loop (C14.R8/R9; also
+// part of C01: a queued datagram is not lost while the router is started).
+func routerDelayRules(c *Ctx, pc, rpush *ssa.Function) {
+	p := c.P
+	var o *Obligation
+	// R8 router minimum delay
+	o = c.Obl("R8", fname(pc), "router: a chunk is popped only on the edge where its timestamp is not after cutOff = now - minDelay; the timestamp is taken when the router enqueues the chunk", 3)
+	var cut *ssa.Call
+	instrsOfU(pc, func(in ssa.Instruction) {
+		call, ok := in.(*ssa.Call)
+		if !ok || callName(call) != "(time.Time).Add" {
+			return
+		}
+		now, ok := origin(call.Call.Args[0]).(*ssa.Call)
+		if !ok || callName(now) != "time.Now" {
+			return
+		}
+		lf := linOf(call.Call.Args[1], nil)
+		want := linSym(pc.Params[0].Name() + ".minDelay").scale(-1)
+		if lf.eq(want) {
+			cut = call
+			o.Site(in.Pos(), "cutOff = now - minDelay")
+		} else if strings.Contains(lf.String(), "minDelay") {
+			o.Site(in.Pos(), "cutOff = now + (%s)", lf)
+			o.Fail(in.Pos(), "the cut-off is now + (%s), not now - minDelay: chunks younger than the minimum delay are forwarded", lf)
+		}
+	})
+	if cut == nil && !o.Failed {
+		o.Fail(pc.Pos(), "cut-off time (now - minDelay) not found in processChunks")
+	}
+	notDue := func(ft fact) bool {
+		if cut == nil {
+			return false
+		}
+		isTS := func(v ssa.Value) bool {
+			ts, ok := v.(*ssa.Call)
+			return ok && ts.Call.IsInvoke() && ts.Call.Method.Name() == "getTimestamp"
+		}
+		return timeOrderFact(ft, isTS, func(v ssa.Value) bool { return sameOrigin(v, ssa.Value(cut)) }) == -1
+	}
+	for _, in := range findU(pc, func(in ssa.Instruction) bool { return isQueueCall(in, "pop") }) {
+		o.Site(in.Pos(), "pop")
+		if !hasFact(in, notDue) {
+			o.Fail(in.Pos(), "the router pops a chunk on a path where its timestamp was not compared with the cut-off")
+		}
+	}
+	// R9 the wait reported to the forwarding loop
+	o9 := c.Obl("R9", fname(pc), "the wait processChunks reports is 0 only when the queue was found empty; otherwise it is (head timestamp + minDelay) - T for the very instant T whose cut-off T - minDelay the head was found after: a positive time, so the forwarding loop sleeps on a timer and not on the push signal while a chunk is queued", 2)
+	if cut != nil {
+		nowCall := origin(cut.Call.Args[0])
+		isTSv := func(v ssa.Value) bool {
+			ts, ok := origin(v).(*ssa.Call)
+			return ok && ts.Call.IsInvoke() && ts.Call.Method.Name() == "getTimestamp"
+		}
+		ppaths, okP := enumIterPathsU(pc, 20000)
+		if !okP {
+			o9.Undecide("the paths of processChunks could not be enumerated")
+		}
+		nZero, nWait := 0, 0
+		seen9 := map[string]bool{}
+		for pi := range ppaths {
+			pt := &ppaths[pi]
+			ret, isRet := pt.last().(*ssa.Return)
+			if !isRet || pt.Loop || ret.Parent() != pc || len(ret.Results) != 2 {
+				continue
+			}
+			if e := errorOperand(ret); e == nil || !isNilConst(pt.value(e)) {
+				continue // an error ends the forwarding loop
+			}
+			dv := retValAt(ret, 0)
+			if len(dv) != 1 {
+				o9.Undecide("the wait returned by processChunks is not a single value")
+				continue
+			}
+			d := pt.value(dv[0])
+			if k, isC := constInt(d); isC {
+				nZero++
+				// the queue was found empty on this path
+				empty := false
+				for _, ft := range pt.Conds {
+					if nilFact(ft, func(v ssa.Value) bool { cl, ok := origin(pt.value(v)).(*ssa.Call); return ok && isQueueCall(cl, "peek") }, true) {
+						empty = true
+					}
+					if boolFact(ft, func(v ssa.Value) bool {
+						ex, ok := v.(*ssa.Extract)
+						if !ok || ex.Index != 1 {
+							return false
+						}
+						cl, ok := origin(ex.Tuple).(*ssa.Call)
+						return ok && isQueueCall(cl, "pop")
+					}, false) {
+						empty = true // pop() reported that nothing was queued
+					}
+				}
+				key := fmt.Sprintf("zero %d %v", k, empty)
+				if !seen9[key] {
+					seen9[key] = true
+					o9.Site(ret.Pos(), "returns %d (queue found empty: %v)", k, empty)
+				}
+				if k != 0 || !empty {
+					if !seen9["f"+key] {
+						seen9["f"+key] = true
+						o9.Fail(ret.Pos(), "processChunks reports the constant wait %d on a path where the queue was not found empty: the loop waits for the next push while a chunk is queued (or spins)", k)
+					}
+				}
+				continue
+			}
+			nWait++
+			okShape := false
+			if sub, ok := d.(*ssa.Call); ok && callName(sub) == "(time.Time).Sub" && sameOrigin(sub.Call.Args[1], nowCall) {
+				if add, ok := origin(sub.Call.Args[0]).(*ssa.Call); ok && callName(add) == "(time.Time).Add" && isTSv(add.Call.Args[0]) &&
+					linOf(add.Call.Args[1], nil).eq(linSym(pc.Params[0].Name()+".minDelay")) {
+					// on the edge head.After(T - minDelay)
+					for _, ft := range pt.Conds {
+						if timeOrderFact(ft, isTSv, func(v ssa.Value) bool { return sameOrigin(v, ssa.Value(cut)) }) == 1 {
+							okShape = true
+						}
+					}
+				}
+			}
+			if !seen9["w"] {
+				seen9["w"] = true
+				o9.Site(ret.Pos(), "returns the remaining delay of the head (recognised: %v)", okShape)
+			}
+			if !okShape && !seen9["fw"] {
+				seen9["fw"] = true
+				o9.Fail(ret.Pos(), "the wait for a head that is not due is not (timestamp + minDelay) - T with the T of the cut-off test (e.g. measured against a later clock reading): it can be <= 0 although a chunk is queued, and the forwarding loop then waits for a push that may never come")
+			}
+		}
+		if nZero == 0 || nWait == 0 {
+			o9.Undecide("expected a path reporting 0 (empty queue) and a path reporting the head's remaining delay, found %d / %d", nZero, nWait)
+		}
+	}
+	// timestamp at enqueue
+	var stamp, qpush ssa.Instruction
+	instrsOfU(rpush, func(in ssa.Instruction) {
+		if isInvoke(in, "setTimestamp") {
+			stamp = in
+		}
+		if isQueueCall(in, "push") {
+			qpush = in
+		}
+	})
+	if stamp == nil || qpush == nil || !domU(stamp, qpush) {
+		o.Fail(rpush.Pos(), "the chunk is not stamped before the router enqueues it")
+	} else {
+		o.Site(stamp.Pos(), "setTimestamp before queue.push")
+		if stamp.(*ssa.Call).Call.Value != qpush.(*ssa.Call).Call.Args[1] {
+			o.Fail(stamp.Pos(), "the stamped chunk is not the one that is enqueued")
+		}
+	}
+	for _, tn := range []string{"chunkIP"} {
+		if f := p.Func("vnet", tn, "setTimestamp"); f != nil {
+			instrsOf(f, func(in ssa.Instruction) {
+				if s, ok := in.(*ssa.Store); ok && isFieldStore(s, "vnet."+tn, "timestamp") {
+					call, ok := origin(s.Val).(*ssa.Call)
+					if !ok || callName(call) != "time.Now" {
+						o.Fail(in.Pos(), "setTimestamp does not record time.Now()")
+					}
+				}
+			})
+		}
+	}
 }
